@@ -44,31 +44,26 @@ Proof. exact window_times_subrange. Qed.
 Print Assumptions C11_window_times_subrange.
 
 (* SDATE/STIME/TSTEP of the window give every retained step the instant it had in the source, across day and
-   year boundaries -- for steps shorter than one day (missing: TSTEP >= 240000) *)
-Theorem C11_start_step_preserved_partial : forall t0 tstep n sdate stime s d h ts,
-  0 <= n -> valid_step tstep = true -> sec_of_hhmmss tstep < 86400 ->
+   year boundaries, for EVERY step length (hours >= 24 included: repaired code, fixes/C11-slice-tstep-ge-24h.patch)
+   and every start instant -- no validity hypothesis on the source attributes is needed *)
+Theorem C11_start_step_preserved : forall t0 tstep n sdate stime s d h ts,
+  0 <= n ->
   impl_slice_time t0 tstep n sdate stime (Some s) = Some (d, h, ts) ->
   exists st cnt, sel_range n s = Some (st, cnt) /\ 0 <= st /\ 0 < cnt /\ st + cnt <= n
     /\ valid_hhmmss h = true
     /\ forall j, 0 <= j < cnt -> attr_time d h ts j = t0 + (st + j) * sec_of_hhmmss tstep.
 Proof. exact times_subrange. Qed.
-Print Assumptions C11_start_step_preserved_partial.
+Print Assumptions C11_start_step_preserved.
 
-(* FULL statement (every valid step) is false of the faithful model: a 25-hour step becomes 1 hour *)
-Theorem C11_start_step_preserved_refuted : exists t0 tstep n sdate stime s d h ts,
-  0 <= n /\ valid_step tstep = true
-  /\ impl_slice_time t0 tstep n sdate stime (Some s) = Some (d, h, ts)
-  /\ attr_time d h ts 1 <> t0 + (1 + 1) * sec_of_hhmmss tstep.
-Proof.
-  exists 946677600, 250000, 4, 1999365, 220000, (SSlice (Some 1) None), 2000001, 230000, 10000.
-  vm_compute. split; [discriminate|]. split; [reflexivity|]. split; [reflexivity|discriminate].
-Qed.
-Print Assumptions C11_start_step_preserved_refuted.
-
-(* ---- non-vacuity: a combined window (negative int row, slice col, int layer, time window across new year) *)
+(* ---- non-vacuity: a combined window (negative int row, slice col, int layer, time window across new year),
+   and a 25-hour step kept as 250000 *)
 Example C11_combined_window_inhabited :
   impl_window (Grid (-804) 162 96 36 [1024; 768; 512; 0] 1999365 220000 10000 4 5 6)
               (Win (Some (SSlice (Some 1) (Some 3))) (Some (SInt 1)) (Some (SInt (-2))) (Some (SSlice (Some 2) None)))
   = Some (Out (-612) 270 [768; 512] 1999365 230000 10000
               [946681200; 946684800]).
+Proof. vm_compute. reflexivity. Qed.
+
+Example C11_long_step_inhabited :
+  impl_slice_time 946677600 250000 4 1999365 220000 (Some (SSlice (Some 1) None)) = Some (2000001, 230000, 250000).
 Proof. vm_compute. reflexivity. Qed.
